@@ -15,6 +15,37 @@ let sslice (lo, hi) =
   let lo = int_of_z lo and hi = int_of_z hi in
   if lo = hi then "e" else Printf.sprintf "%d:%d" lo hi
 
+
+(* ---- the x86 machine model on the translated assembly ----
+   every placement / surrounding / feature combination must give the same Done result *)
+let x86 (k_str : z -> z list -> z -> z -> bool -> bool -> z -> nat -> xres)
+        (k_byt : z -> z list -> z -> z -> bool -> bool -> z -> nat -> xres)
+        (s : z list) (c : int) : string =
+  let len = List.length s in
+  let fuel = x_nat_of_z (z_of_int (200 + 8 * len)) in
+  let page = 4096 in
+  let places = [ 2 * page; 2 * page + 1; 3 * page - len; 3 * page - len - 3; 3 * page - 7; 2 * page + 4081 ] in
+  let results = ref [] in
+  List.iter (fun a ->
+    List.iter (fun junk ->
+      List.iter (fun (avx2, popcnt) ->
+        List.iter (fun k ->
+          let r = k (z_of_int a) s (z_of_int junk) (z_of_int 0x5eadbeefcafe) avx2 popcnt (z_of_int c) fuel in
+          let str = match r with
+            | XFault -> "FAULT"
+            | XFuel -> "OUTOFFUEL"
+            | XDelegated -> "GO"      (* tail call into the Go fallback (no POPCNT): that code is modelled in Kernels.v *)
+            | XDone None -> "NORESULT"
+            | XDone (Some v) -> string_of_int (int_of_z v) in
+          if str <> "GO" && not (List.mem str !results) then results := str :: !results)
+          [k_str; k_byt])
+        [(true, true); (false, true); (true, false); (false, false)])
+      [0; 255; c])
+    places;
+  match !results with
+  | [r] -> r
+  | l -> "DIFF(" ^ String.concat "," (List.rev l) ^ ")"
+
 let impl (fn : string) (a : string array) : string option =
   let s i = bytes_of_hex a.(i) in
   let n i = z_of_int (int_of_string a.(i)) in
@@ -88,4 +119,7 @@ let impl (fn : string) (a : string array) : string option =
     Some (both (string_of_int (int_of_z (i_count_generic (s 0) (n 1))))
                (string_of_int (int_of_z (i_count_simd (s 0) (n 1)))))
   | "k.index_non_ascii" -> Some (string_of_int (int_of_z (i_index_non_ascii_generic (s 0))))
+  | "x.index_non_ascii" -> Some (x86 x_index_non_ascii_str x_index_non_ascii_byt (s 0) 0)
+  | "x.index_byte" -> Some (x86 x_index_byte_str x_index_byte_byt (s 0) (int_of_string a.(1)))
+  | "x.count" -> Some (x86 x_count_str x_count_byt (s 0) (int_of_string a.(1)))
   | _ -> None
